@@ -205,9 +205,9 @@ def genLjsonImporter (table : List (Nat × String)) (filepath : Json) : Except E
     .error Exc.valueError
   else
     if (!(jsonIsNat version0 3)) then
-      .ok (((parser0).getD ""))
+      .ok ((callParser parser0 lmsdict0))
     else
-      .ok (((parser0).getD ""))
+      .ok ((callParser parser0 lmsdict0))
 
 def genParseNull (pointslist : List (List (Option Rat))) : Except Exc (List (List (Option Rat))) :=
   let filteredpoints0 := (List.map (fun it0 => let x0 := it0; (if (x0).isNone then none else x0)) (List.flatten pointslist))
